@@ -8,6 +8,7 @@ func init() {
 	vpHarnesses["vpH_C04_rich"] = vpH_C04_rich
 	vpHarnesses["vpH_C05_history"] = vpH_C05_history
 	vpHarnesses["vpH_C03_query"] = vpH_C03_query
+	vpHarnesses["vpH_C03_twofilters"] = vpH_C03_twofilters
 	vpHarnesses["vpH_C15_lockset"] = vpH_C15_lockset
 }
 
@@ -533,5 +534,37 @@ func vpH_C15_lockset() {
 		}
 	}
 	vpUnguard()
+	vpReach("end")
+}
+
+// C03, several filters in one query: each filter contributes ITS limit newest
+// matches (a saturated filter must not admit more because another one is still
+// searching); overlapping filters; both access paths mixed.
+func vpH_C03_twofilters() {
+	n := 3
+	if vpTier() > 0 {
+		n = 4
+	}
+	c := NewEventCache(vpCapacity(n))
+	for i := 0; i < n; i++ {
+		pk := "A"
+		if i == n-1 {
+			pk = "B"
+		}
+		c.Add(&Event{ID: string(rune('0' + i)), Pubkey: pk, Kind: 1, CreatedAt: vpInt64("at"), Tags: []Tag{}})
+	}
+	retained := c.Find([]*ReqFilter{{}})
+	l0 := vpInt64("f0.limit")
+	vpAssume(l0 >= 0)
+	f0 := &ReqFilter{Limit: &l0, Since: vpGenOptInt("f0.since")}
+	f1 := &ReqFilter{Until: vpGenOptInt("f1.until"), Limit: vpGenOptInt("f1.limit")}
+	if f1.Limit != nil {
+		vpAssume(*f1.Limit >= 0)
+	}
+	if vpChoice("f1.selective", 2) == 1 {
+		f1.Authors = []string{"A"}
+	}
+	fs := []*ReqFilter{f0, f1}
+	specQuery("C03.two-filters", retained, fs, c.Find(fs))
 	vpReach("end")
 }
